@@ -36,7 +36,12 @@ fn main() {
     for (ci, case) in cases.iter().enumerate() {
         let letters = case["t"].as_array().unwrap();
         let text = concretise(letters);
-        let has_cr = text.contains('\r');
+        // C22 is judged on texts whose CRs all belong to CR LF pairs (the only disputed point of a lone CR is
+        // whether it ends a line, which is C23's business)
+        let lone_cr = {
+            let b = text.as_bytes();
+            (0..b.len()).any(|i| b[i] == b'\r' && b.get(i + 1) != Some(&b'\n'))
+        };
         let lines: Vec<(u32, u32, u32)> = case["lines"]
             .as_array()
             .unwrap()
@@ -66,8 +71,8 @@ fn main() {
             fails += 1;
             emit(&json!({"fail": kind, "prop": prop, "t": case["t"], "text": text, "detail": detail}));
         };
-        // every 7th case also goes through a real Vfs / LuaDocument (same arithmetic, other entry point)
-        let via_doc = ci % 7 == 0;
+        // every other case goes through a real Vfs / LuaDocument (same arithmetic, other entry point)
+        let via_doc = ci % 2 == 0;
         let path = PathBuf::from(format!("/vh/textpos_{}.lua", ci % 3));
         let uri = file_path_to_uri(&path).unwrap();
         let file_id = if via_doc {
@@ -123,10 +128,50 @@ fn main() {
         }
 
         // ---- C22: encoding / terminator independent part, judged on CR-free texts only
-        if has_cr {
+        // ---- C23 through the document-level conversions (ranges, positions, line ranges)
+        if let Some(id) = file_id {
+            let bounds: Vec<(u32, usize, usize)> = pos.iter().filter(|p| !p.3).map(|p| (p.0, p.1, p.2)).collect();
+            for &(o1, l1, c1) in &bounds {
+                for &(o2, l2, c2) in &bounds {
+                    if o2 < o1 {
+                        continue;
+                    }
+                    evals += 1;
+                    let got = guarded(|| {
+                        let doc = vfs.get_document(&id).expect("doc");
+                        let r = doc.to_lsp_range(rowan::TextRange::new(TextSize::from(o1), TextSize::from(o2)));
+                        let back = doc.to_rowan_range(lsp_types::Range {
+                            start: lsp_types::Position { line: l1 as u32, character: c1 as u32 },
+                            end: lsp_types::Position { line: l2 as u32, character: c2 as u32 },
+                        });
+                        (
+                            r.map(|r| (r.start.line, r.start.character, r.end.line, r.end.character)),
+                            back.map(|b| (u32::from(b.start()), u32::from(b.end()))),
+                        )
+                    });
+                    match got {
+                        Err(p) => report("panic", "C23", json!({"op":"to_lsp_range","o1":o1,"o2":o2,"panic":p})),
+                        Ok((r, back)) => {
+                            let want = Some((l1 as u32, c1 as u32, l2 as u32, c2 as u32));
+                            if r != want {
+                                report("range", "C23", json!({"o1":o1,"o2":o2,"want":want,"got":r}));
+                            }
+                            if back != Some((o1, o2)) {
+                                report("range-back", "C23", json!({"range":want,"want":[o1,o2],"got":back}));
+                            }
+                        }
+                    }
+                }
+            }
+        }
+
+        if lone_cr {
             continue;
         }
-        for &(o, _, _, _) in &pos {
+        for &(o, _, _, inside) in &pos {
+            if inside {
+                continue; // strictly inside a CR LF pair: no LSP position denotes it
+            }
             evals += 1;
             match to_pos(o) {
                 Err(p) => report("panic", "C22", json!({"op":"offset_to_pos","o":o,"panic":p})),
